@@ -361,6 +361,16 @@ pub fn b64_is_canonical_unpadded(s: &[u8]) -> bool {
     }
 }
 
+/// Well-formed base64 as a peer must accept it: canonical, either unpadded or correctly padded.
+pub fn b64_is_wellformed(s: &[u8]) -> bool {
+    let pads = s.iter().rev().take_while(|c| **c == b'=').count();
+    let body = &s[..s.len() - pads];
+    if pads > 0 && (pads > 2 || (body.len() + pads) % 4 != 0) {
+        return false;
+    }
+    b64_is_canonical_unpadded(body)
+}
+
 // ---------------------------------------------------------------- gRPC Percent-Encoded (grpc-message)
 
 /// Spec: Percent-Byte-Unencoded = 1*( %x20-%x24 / %x26-%x7E ).  Everything else must be %XX.
